@@ -192,3 +192,169 @@ def replay_tip(n_e, li_e, plen):
     def rp(model, path):
         return replay_walk(plen, n_e, li_e)(model, path)
     return rp
+
+
+# ===================================================================================================================
+# C08-S: tree structure = RFC 6962 for concrete sizes, symbolic leaf contents (hashes as free constructors)
+def mth(leaves):
+    n = len(leaves)
+    if n == 1:
+        return Hash.leaf(leaves[0])
+    k = 1
+    while k * 2 < n:
+        k *= 2
+    return Hash.node(mth(leaves[:k]), mth(leaves[k:]))
+
+
+def structure_hooks():
+    from mirsym import models as M
+    from mirsym.engine import Diverge
+
+    def nodes_of(ctx, tree):
+        t = ctx.ex.deref_val(ctx.st, tree)
+        a = ctx.ex.adts.lookup('Tree')
+        return ctx.ex.read(ctx.st, ('field', t, (None, a['fields'].index('nodes'), 'Vec<u8>')))
+
+    def idx(ctx, v):
+        i = z3.simplify(v)
+        if not z3.is_bv_value(i):
+            raise Inconclusive('symbolic node index in a concrete-shape run')
+        return i.as_long()
+
+    def h_get_node(ctx):
+        items = nodes_of(ctx, ctx.args[0]).attrs['items']; i = idx(ctx, ctx.args[1])
+        if i >= len(items):
+            return Diverge('panic', 'get_node outside the tree')
+        return [(None, items[i])]
+
+    def h_set_node(ctx):
+        items = nodes_of(ctx, ctx.args[0]).attrs['items']; i = idx(ctx, ctx.args[1])
+        if i >= len(items):
+            return Diverge('panic', 'set_node outside the tree')
+        items[i] = ctx.args[2]
+        return [(None, ())]
+
+    def h_tree_new(ctx):
+        v = M.new_vec('Vec<u8>', []); v.attrs['bytes_per_item'] = 32; v.attrs['zero_atom'] = Hash.atom(z3.IntVal(0))
+        return [(None, B.struct(ctx.ex, 'Tree', nodes=v))]
+
+    def h_init_leaf_hasher(ctx):
+        o = Obj('Sha256', kind='hasher'); o.attrs['parts'] = []
+        return [(None, o)]
+
+    def h_update(ctx):
+        h = ctx.ex.deref_val(ctx.st, ctx.args[0]); d = ctx.ex.deref_val(ctx.st, ctx.args[1])
+        h.attrs['parts'] = h.attrs['parts'] + [d]
+        return [(None, ())]
+
+    def h_finalize(ctx):
+        h = ctx.ex.deref_val(ctx.st, ctx.args[0])
+        parts = h.attrs['parts']
+        if len(parts) != 1 or not z3.is_int(parts[0]):
+            raise Inconclusive(f'leaf hasher fed with {parts!r}')
+        return [(None, Hash.leaf(parts[0]))]
+
+    return [(r'^Tree::get_node$', h_get_node), (r'^Tree::set_node$', h_set_node), (r'^Tree::new$', h_tree_new), (r'^init_leaf_hasher$', h_init_leaf_hasher),
+            (r'Digest>::update(::<.*>)?$|^Sha256::update$|::update::<&\[u8\]>$', h_update), (r'Digest>::finalize$|FixedOutput>::finalize_fixed$', h_finalize),
+            (r'^<.*GenericArray<u8.*as Into<\[u8; 32\]>>::into$|^<\[u8; 32\] as From<.*GenericArray', lambda ctx: [(None, ctx.args[0])]),
+            (r'^combine$', h_combine), (r'^core::slice::<impl \[u8\]>::chunks$', h_chunks),
+            (r'^(std::num::)?NonZero::<usize>::get$', lambda ctx: [(None, ctx.args[0])])]
+
+
+def run_one(ex, fname, args, what):
+    ps = [p for p in ex.run(ex.start(fname, args)) if p.kind != 'infeasible']
+    for p in ps:
+        if p.kind in ('abort', 'unreachable') or any(e[0] == 'havoc' for e in p.events):
+            raise Inconclusive(f'{what}: {p.kind} {p.info} {[e for e in p.events if e[0] == "havoc"][:2]}')
+    if len(ps) != 1 or ps[0].kind != 'return':
+        return None, [(p.kind, p.info) for p in ps]
+    return ps[0], None
+
+
+@obligation('C08', 'C08-S roots equal RFC 6962 MTH; every constructed proof verifies; a changed leaf / path element / root does not')
+def c08_structure(run):
+    N = 16 if run.tier == 'quick' else 48
+    run.bound(leaves=f'every tree size 1..{N} (concrete shapes), symbolic leaf contents; sizes beyond are covered only through the size-independent index lemmas (C08-K)',
+              hashing='free constructors leaf(bytes) / node(l, r): a collision-free hash model, so equal terms <=> equal inputs')
+    run.assume('SHA-256 is collision free and leaf/inner domain separation holds (modelled by distinct free constructors)')
+    ex = merkle_engine(structure_hooks())
+    ex.drop_types = {'LeafBuilder'}
+    push = ex.find(r'(^|::)<impl at [^>]*>::push$')
+    root_f = ex.find(r'(^|::)<impl at [^>]*>::root$')
+    cproof = ex.find(r'(^|::)<impl at [^>]*>::construct_proof$')
+    walk = ex.find(r'audit::<impl at [^>]*>::reconstruct_root_with_leaf_hash$')
+    tnew = ex.find(r'(^|::)<impl at [^>]*>::new$') if False else None
+    from mirsym import models as M
+    leaves = [z3.Int(f'leaf{i}') for i in range(N)]
+    v = M.new_vec('Vec<u8>', []); v.attrs['bytes_per_item'] = 32; v.attrs['zero_atom'] = Hash.atom(z3.IntVal(0))
+    tree = B.struct(ex, 'Tree', nodes=v)
+    for n in range(1, N + 1):
+        p, bad = run_one(ex, push, [B.cell(tree), leaves[n - 1]], 'push')
+        if p is None:
+            run.prove(f'push of leaf {n} does not panic', [], z3.BoolVal(False), detail=str(bad)); return
+        tree = ex.read(p, p.roots['args'][0].loc)
+        p, bad = run_one(ex, root_f, [B.cell(tree)], 'root')
+        if p is None:
+            run.prove(f'root of {n}-leaf tree does not panic', [], z3.BoolVal(False), detail=str(bad)); return
+        root = p.result
+        ref = mth(leaves[:n])
+        run.cur.paths += 1
+        run.prove(f'root of {n} leaves == RFC 6962 MTH', [], root == ref, replay=replay_structure(n), detail=str(z3.simplify(root))[:300])
+        if n <= 3:
+            run.sample({'leaves': n, 'root_term': str(z3.simplify(root))})
+        for i in range(n):
+            p, bad = run_one(ex, cproof, [B.cell(tree), z3.BitVecVal(i, 64)], 'construct_proof')
+            if p is None or p.result.discr != 'Some':
+                run.prove(f'construct_proof({i}) of {n} leaves yields a proof', [], z3.BoolVal(False), replay=replay_structure(n), detail=str(bad)); continue
+            proof = p.result.fields[('Some', 0)]
+            lh = Hash.leaf(leaves[i])
+            pw, bad = run_one(ex, walk, [B.cell(proof), lh], 'walk')
+            if pw is None:
+                run.prove(f'proof {i}/{n} verifies without panic', [], z3.BoolVal(False), replay=replay_structure(n), detail=str(bad)); continue
+            run.cur.paths += 1
+            run.prove(f'proof for leaf {i} of {n} reconstructs the root', [], pw.result == root, replay=replay_structure(n))
+            if run.tier == 'thorough' or n in (1, 2, 3, 5, 7, 8, 11, 13, 16):
+                x = z3.Const('tampered', Hash)
+                pw2, _ = run_one(ex, walk, [B.cell(ex.copy_val(proof)), x], 'walk-tampered-leaf')
+                run.prove(f'proof {i}/{n}: a different leaf hash does not verify', [x != lh], pw2.result != root)
+                path = B.fld(ex, p, proof, 'audit_path', 'Vec<u8>')
+                for j in range(len(path.attrs['items'])):
+                    pr2 = ex.copy_val(proof); path2 = B.fld(ex, p, pr2, 'audit_path', 'Vec<u8>')
+                    orig = path2.attrs['items'][j]; path2.attrs['items'][j] = x
+                    pw3, _ = run_one(ex, walk, [B.cell(pr2), lh], 'walk-tampered-path')
+                    run.prove(f'proof {i}/{n}: changing path element {j} does not verify', [x != orig], pw3.result != root)
+    run.require_reached(*run.cur.reach)
+
+
+def replay_structure(n):
+    from vlib import replay
+
+    def rp(model, path):
+        code = f'''
+#[cfg(test)]
+mod verif_replay_structure {{
+    fn mth(leaves: &[Vec<u8>]) -> [u8; 32] {{
+        if leaves.len() == 1 {{ return crate::hash_leaf(&leaves[0]); }}
+        let mut k = 1; while k * 2 < leaves.len() {{ k *= 2; }}
+        crate::combine(&mth(&leaves[..k]), &mth(&leaves[k..]))
+    }}
+    #[test]
+    fn verif_replay_structure() {{
+        let leaves: Vec<Vec<u8>> = (0..{n}u32).map(|i| format!("leaf-{{i}}").into_bytes()).collect();
+        let r = std::panic::catch_unwind(|| {{
+            let tree = crate::Tree::from_leaves(&leaves);
+            let root = tree.root();
+            let mut ok = root == mth(&leaves);
+            for i in 0..leaves.len() {{
+                let proof = tree.construct_proof(i).expect("leaf is in the tree");
+                ok &= proof.verify(&leaves[i], root);
+            }}
+            ok
+        }});
+        println!("VERIF: {{{{\\"verdict\\": \\"{{}}\\"}}}}", match r {{ Ok(true) => "held", Ok(false) => "mismatch", Err(_) => "panic" }});
+    }}
+}}'''
+        r = replay.run_crate_test('astria-merkle', 'crates/astria-merkle/src/lib.rs', code, 'verif_replay_structure')
+        v = r['lines'][-1]['verdict'] if r['lines'] else None
+        return {'mode': 'native-crate-test', 'inputs': {'leaves': n}, 'verdict': v, 'reproduced': (v in ('mismatch', 'panic')) if v else None, 'error': None if v else r['output'][-1200:]}
+    return rp
